@@ -35,7 +35,7 @@ man = {
     "engines": [
         {"name": "lean-proofs", "path": "lean/", "serves_properties": sorted(claimed), "kind_free_text": "Lean 4.33 theorems (Properties/Cxx.lean) about core-only functional models of the amgcl templates; axioms audited on every run"},
         {"name": "exact-correspondence", "path": "harness/ + lean/DriverMain.lean", "serves_properties": sorted(claimed), "kind_free_text": "differential check: real amgcl templates instantiated at an exact rational type vs the compiled Lean model on the same op lines; exact equality; implementation-side property oracles search for failing inputs"},
-        {"name": "translators", "path": "tools/*_extract.py", "serves_properties": [c for c in sorted(claimed) if c in ("C14", "C09")], "kind_free_text": "finite tables (parameter import/export lists, enum tables, OpenMP barrier skeleton) regenerated from /repo into Amgcl/Generated/*.lean on every run and re-checked by the kernel"},
+        {"name": "translators", "path": "tools/*_extract.py, tools/sync_skeleton.py, tools/alloc_sites.py", "serves_properties": [c for c in sorted(claimed) if c in ("C14", "C09", "C10")], "kind_free_text": "finite tables (parameter import/export lists, enum tables, OpenMP barrier skeleton, uninitialised-allocation sites) regenerated from /repo into Amgcl/Generated/*.lean on every run and re-checked by the kernel"},
     ],
     "checks": checks,
     "not_applicable": na,
